@@ -272,6 +272,12 @@ def _run(rec, rng, sim, R, srv, asyncm, path, V, case):
         # UPGRADE -> NOOP in what the client reads next
         if noop_expected and path in ('post', 'ws', 'ws-upgraded'):
             rec.count('upgrade_noop')
+            if path == 'post':
+                for _ in range(4):      # the client keeps reading
+                    ptk = R.poll(s)
+                    sim.quiesce()
+                    if not ptk.done:
+                        break
             noops = [d for d in R.delivered_other[d0:]
                      if d['s'] == s.n and d['type'] == 6]
             if len(noops) < noop_expected:
